@@ -35,13 +35,13 @@ ASSUMPTIONS = ['shim fidelity as for C04', 'ParMapDataset source faults: prefix 
                'no BaseException into multiprocessing/pathos workers']
 SHARD_TIMEOUT = {'quick': 600, 'thorough': 7000}
 LIMITS = {
-    'quick': dict(dfs_n=2, dfs_b=2, dfs_bound=2, dfs_cap=200, rnd_n=4, rnd_b=3, rnd_w=2,
-                  rnd_runs=8, real_runs=300, proc_cases=1),
+    'quick': dict(dfs_n=2, dfs_b=2, dfs_bound=2, dfs_cap=130, rnd_n=4, rnd_b=3, rnd_w=2,
+                  rnd_runs=5, real_runs=300, proc_cases=1),
     'thorough': dict(dfs_n=3, dfs_b=2, dfs_bound=3, dfs_cap=5000, rnd_n=5, rnd_b=4,
                      rnd_w=3, rnd_runs=60, real_runs=3000, proc_cases=3),
 }
 KINDS = ('value', 'user', 'filter', 'base')
-CATCH_ENTRIES = ('pf1', 'pft')
+CATCH_ENTRIES = ('pf1', 'pft', 'parpf1')
 
 
 def fault_plans(n):
